@@ -88,6 +88,8 @@ def run_check(prop, tier, jobs):
     all_spec_names = set(); found_names = set()
     try:
         for cn in cfgs:
+            if CONFIGS[cn].get('props') is not None and prop not in CONFIGS[cn]['props']:
+                continue
             try:
                 b = verif.build(cn, wd)
             except Exception as e:
